@@ -6,6 +6,7 @@ unknown-operator rule gives for their opcodes, and return nil on success like ev
 operator).  The guard-level simulation is in preparation (see DESIGN §5 C08).
 -/
 import ClvmModel.Interp.Machine
+import ClvmProofs.Lemmas.Interp.HideSim
 
 namespace Clvm.Props.C08
 open Clvm Clvm.Interp
@@ -39,5 +40,118 @@ theorem secp256r1_cost_eq_unknown (flags maxCost : Nat) (args : Val) (c : Ctr)
   simp [hm, hold, checkCost, Gen.SECP256R1_VERIFY_COST]
   have : maxCost ≠ 0 := by omega
   simp [this]
+
+/-! ### the guard-level simulation (appended; lemmas in `Lemmas/Interp/HideSim.lean`) -/
+
+/-- what the simulation needs to know about the two operators assigned to the 4-byte opcodes (they are
+supplied through `extra`, outside the core table): a successful verification charges the generated
+constant, returns nil and allocates nothing -/
+def SecpSpec (extra : String → Option OpFn) : Prop :=
+  (∀ f, extra "op_secp256k1_verify" = some f → ∀ fl m args c r, f fl m args c = .ok r →
+    r = (Gen.SECP256K1_VERIFY_COST, Val.nil, c)) ∧
+  (∀ f, extra "op_secp256r1_verify" = some f → ∀ fl m args c r, f fl m args c = .ok r →
+    r = (Gen.SECP256R1_VERIFY_COST, Val.nil, c))
+
+/-- four bytes are determined by their big-endian value -/
+theorem beNat_four_inj (ob : Bytes) (a b c d : UInt8) (hl : ob.length = 4)
+    (h : Alloc.beNat ob = Alloc.beNat [a, b, c, d]) : ob = [a, b, c, d] := by
+  match ob, hl with
+  | [w, x, y, z], _ =>
+    simp only [Alloc.beNat, List.foldl_cons, List.foldl_nil] at h
+    have hw := w.toNat_lt; have hx := x.toNat_lt; have hy := y.toNat_lt; have hz := z.toNat_lt
+    have ha := a.toNat_lt; have hb := b.toNat_lt; have hc := c.toNat_lt; have hd := d.toNat_lt
+    have e1 : w.toNat = a.toNat := by omega
+    have e2 : x.toNat = b.toNat := by omega
+    have e3 : y.toNat = c.toNat := by omega
+    have e4 : z.toNat = d.toNat := by omega
+    rw [UInt8.toNat_inj.1 e1, UInt8.toNat_inj.1 e2, UInt8.toNat_inj.1 e3, UInt8.toNat_inj.1 e4]
+
+/-- **(ii) the 4-byte opcodes.**  Under the pre-hard-fork cost model and without `NO_UNKNOWN_OPS`, whenever
+the aware dialect's operator on a 4-byte opcode succeeds within the budget, the unknown-operator rule
+gives the same cost, value and counters: for the two secp opcodes by `secp256k1_cost_eq_unknown` /
+`secp256r1_cost_eq_unknown`, for every other 4-byte opcode because the aware dialect itself calls
+`unknown_operator`. -/
+theorem fourByteAgree_of_secp (cfg : Cfg) (extra : String → Option OpFn) (F : Nat)
+    (hN : newModel F = false) (hU : hasFlag F Gen.FLAG_NO_UNKNOWN_OPS = false) (hsecp : SecpSpec extra) :
+    FourByteAgree (chiaDialect cfg extra F) := by
+  have hfl : (chiaDialect cfg extra F).flags = F := by
+    show (if hasFlag F Gen.FLAG_NEW_COST_MODEL && hasFlag F Gen.FLAG_LIMITS then F - Gen.FLAG_LIMITS else F) = F
+    have : hasFlag F Gen.FLAG_NEW_COST_MODEL = false := hN
+    simp only [this, Bool.false_and, Bool.false_eq_true, if_false]
+  intro ob oi args m c oc v c' h4b hop hle
+  rw [hfl]
+  have hop' : chiaOp cfg extra F (.atom ob oi) args m .Default c = some (.ok (oc, v, c')) := by
+    rw [← hfl]; exact hop
+  have hlen : (ob.length == 4) = true := by simp [h4b]
+  have hun : ∀ K, K ≤ m → 1 ≤ K → opUnknown ob F m args c = .ok (K, Val.nil, c) →
+      unknownOperator ob args F m c = .ok (K, Val.nil, c) := by
+    intro K _ _ h
+    simp only [unknownOperator, hU, Bool.false_eq_true, if_false, h]
+  simp only [chiaOp, Nat.or_zero, hlen, if_true, opcodes_extracted, List.find?] at hop'
+  by_cases h1 : Alloc.beNat secp256k1Opcode = Alloc.beNat ob
+  · have hob : ob = secp256k1Opcode := beNat_four_inj ob _ _ _ _ h4b h1.symm
+    have hb : (Alloc.beNat secp256k1Opcode == Alloc.beNat ob) = true := by simp [h1]
+    simp only [hb] at hop'
+    have hcore : coreOpByName cfg "op_secp256k1_verify" = none := rfl
+    simp only [hcore] at hop'
+    cases hex : extra "op_secp256k1_verify" with
+    | none => rw [hex] at hop'; cases hop'
+    | some f =>
+      rw [hex] at hop'
+      simp only [Option.some.injEq] at hop'
+      have := hsecp.1 f hex _ _ _ _ _ hop'
+      simp only [Prod.mk.injEq] at this
+      obtain ⟨rfl, rfl, rfl⟩ := this
+      subst hob
+      exact hun _ hle (by decide) (secp256k1_cost_eq_unknown F m args _ hN (by
+        have : 1 ≤ Gen.SECP256K1_VERIFY_COST := by decide
+        omega))
+  · have hb : (Alloc.beNat secp256k1Opcode == Alloc.beNat ob) = false := by simp [h1]
+    simp only [hb] at hop'
+    by_cases h2 : Alloc.beNat secp256r1Opcode = Alloc.beNat ob
+    · have hob : ob = secp256r1Opcode := beNat_four_inj ob _ _ _ _ h4b h2.symm
+      have hb2 : (Alloc.beNat secp256r1Opcode == Alloc.beNat ob) = true := by simp [h2]
+      simp only [hb2] at hop'
+      have hcore : coreOpByName cfg "op_secp256r1_verify" = none := rfl
+      simp only [hcore] at hop'
+      cases hex : extra "op_secp256r1_verify" with
+      | none => rw [hex] at hop'; cases hop'
+      | some f =>
+        rw [hex] at hop'
+        simp only [Option.some.injEq] at hop'
+        have := hsecp.2 f hex _ _ _ _ _ hop'
+        simp only [Prod.mk.injEq] at this
+        obtain ⟨rfl, rfl, rfl⟩ := this
+        subst hob
+        exact hun _ hle (by decide) (secp256r1_cost_eq_unknown F m args _ hN (by
+          have : 1 ≤ Gen.SECP256R1_VERIFY_COST := by decide
+          omega))
+    · have hb2 : (Alloc.beNat secp256r1Opcode == Alloc.beNat ob) = false := by simp [h2]
+      simp only [hb2, Option.some.injEq] at hop'
+      exact hop'
+
+/-- **`hide_sim` — soft-fork safety.**  For every build configuration, every flag set `F` without
+`NEW_COST_MODEL` and without `NO_UNKNOWN_OPS`, every well-formed program and environment, every budget and
+initial allocator state: if the aware node (`ChiaDialect::new(F)`) accepts — `run_program` succeeds with
+cost `C`, value `v` and allocator counters `ctr` — then the node that knows no softfork extension and none
+of the 4-byte opcodes (`hideDialect`, the harness' `HideDialect`) accepts too, with the same cost, value
+and counters (given enough fuel for the model's loop).
+Hypotheses on the operators outside the core table (`extra`, e.g. `cryptoExtra`): they return well-formed
+values and keep the heap limit (`OpWf`), and the two secp verifiers satisfy `SecpSpec`. -/
+theorem hide_sim (cfg : Cfg) (extra : String → Option OpFn) (F : Nat)
+    (hN : newModel F = false) (hU : hasFlag F Gen.FLAG_NO_UNKNOWN_OPS = false)
+    (hew : ∀ name f, extra name = some f → OpWf f) (hsecp : SecpSpec extra)
+    (fuel : Nat) (c0 : Ctr) (p env : Val) (mc0 : Nat) (hp : p.wf = true) (he : env.wf = true)
+    (C : Nat) (v : Val) (ctr : Ctr)
+    (h : runProgram cfg (chiaDialect cfg extra F) fuel c0 p env mc0 = some (.ok (C, v, ctr))) :
+    ∃ fuel', runProgram cfg (hideDialect cfg extra F) fuel' c0 p env mc0 = some (.ok (C, v, ctr)) :=
+  hide_run cfg extra F hN hU (fourByteAgree_of_secp cfg extra F hN hU hsecp) hew fuel c0 p env mc0 hp he C v ctr h
+
+/-- (i) in isolation: the unaware node's single step on a softfork whose extension the aware node knows
+is what the aware node's completed guard amounts to — see `C31.guard_program_complete`; here: the unaware
+dialect never recognises an extension. -/
+theorem hide_knows_no_extension (cfg : Cfg) (extra : String → Option OpFn) (F : Nat) (ol : Val) :
+    ∃ err, parseSoftforkArguments (hideDialect cfg extra F) ol = .error err :=
+  hide_parse cfg extra F ol
 
 end Clvm.Props.C08
